@@ -113,6 +113,42 @@ message Casts {
 """
 
 
+def schema_capone():
+    """capture_unrecognized_fields x oneof membership (several members, two oneofs), known numbers up to 63."""
+    return header("capone") + """
+message Sub { int32 x = 1; }
+message CapOne {
+  option (pico.message).capture_unrecognized_fields = true;
+  int32 count = 3;
+  oneof kind {
+    string label = 5;
+    int64 ident = 6;
+    Sub sub = 9;
+    bytes raw = 63;
+  }
+  string note = 7;
+  oneof second {
+    bool flag = 11;
+    sint32 delta = 12;
+  }
+  repeated int32 tail = 13;
+  CapOne inner = 14;
+}
+"""
+
+
+def schema_bigenum():
+    """enum size boundaries (top-level with 20 values, nested with 17, negative and sparse numbers)."""
+    s = header("bigenum", pico=False) + "enum Code {\n"
+    for i in range(20):
+        s += "  CODE_%d = %d;\n" % (i, i if i < 15 else i * 1000)
+    s += "}\nmessage Holder {\n  enum Inner {\n"
+    for i in range(17):
+        s += "    IN_%d = %d;\n" % (i, i)
+    s += "    IN_NEG = -7;\n  }\n  Code code = 1;\n  repeated Code codes = 2;\n  Inner inner = 3;\n  repeated Inner inners = 4;\n  oneof o { Code oc = 5; Inner oi = 6; }\n}\n"
+    return s
+
+
 def random_schema(pkg, rnd):
     """A schema drawn from the grammar: kind x label x option x oneof membership x numbering x order x nesting."""
     nmsg = rnd.randint(2, 4)
@@ -194,7 +230,8 @@ BOUNDARY = {
 
 
 def fixed_schemas():
-    return {"allmaps": schema_allmaps(), "recur": schema_recur(), "presence": schema_presence(), "order": schema_order(), "casts": schema_casts()}
+    return {"allmaps": schema_allmaps(), "recur": schema_recur(), "presence": schema_presence(), "order": schema_order(), "casts": schema_casts(),
+            "capone": schema_capone(), "bigenum": schema_bigenum()}
 
 
 def build(schemas, tag="fresh"):
